@@ -42,6 +42,7 @@ void shim_init(void)
 void shim_case_reset(int fault_n, int fault_class)
 {
     shim_case_coll = 0;
+    shim_inj_view = 0;
     shim_inj = 0; shim_fault_n = fault_n; shim_fault_class = fault_class; shim_fault_hit = 0; shim_fault_where[0] = 0;
     shim_trace_len = 0; shim_trace[0] = 0;
 }
@@ -102,8 +103,10 @@ static long tsize(MPI_Datatype t) { int s = 0; if (t == MPI_DATATYPE_NULL) retur
 
 /* returns 1 when this injectable call must fail */
 static long inj_bytes = -1;
+int shim_inj_view = 0;             /* case option injview=1: the injectable calls of the case are its MPI_File_set_view calls, and only those */
 static int inject(const char *what)
 {
+    if (shim_inj_view && strcmp(what, "MPI_File_set_view")) return 0;
     shim_inj++;
     if (shim_fault_n && shim_inj == shim_fault_n) {
         shim_fault_hit = 1;
@@ -227,7 +230,15 @@ int MPI_File_close(MPI_File *fh)
     return e;
 }
 int MPI_File_set_view(MPI_File fh, MPI_Offset d, MPI_Datatype et, MPI_Datatype ft, const char *rep, MPI_Info info)
-{ FCOLL(CL_FILE_SET_VIEW, 0, fh, "MPI_File_set_view"); return PMPI_File_set_view(fh, d, et, ft, rep, info); }
+{
+    int e, bad = 0;
+    FCOLL(CL_FILE_SET_VIEW, 0, fh, "MPI_File_set_view");
+    if (shim_inj_view) bad = inject("MPI_File_set_view");
+    /* the view is set all the same (the call is collective and later traffic of the other processes relies on it); the caller is told it failed */
+    e = PMPI_File_set_view(fh, d, et, ft, rep, info);
+    if (bad && e == MPI_SUCCESS) return shim_fault_class;
+    return e;
+}
 int MPI_File_sync(MPI_File fh)
 {
     int e, bad; unsigned mem = fh_members(fh);
